@@ -263,6 +263,15 @@ def h_str_ne(ex, name, args, path, depth, caller):
         yield Outcome("return", o.path, z3.Not(o.value))
 
 
+def h_char_to_string(ex, name, args, path, depth, caller):
+    c = deref(args[0])
+    t = z3.simplify(c.t)
+    if z3.is_int_value(t):
+        yield Outcome("return", path, StrV(chr(t.as_long())))
+    else:
+        yield Outcome("return", path, StrV(z3.StrFromCode(c.t)))
+
+
 def h_to_lowercase(ex, name, args, path, depth, caller):
     v = deref(args[0])
     if isinstance(v, StrV) and v.is_concrete():
@@ -715,6 +724,7 @@ def install(ex):
         H.append((re.compile(rx), fn))
 
     add(r"^<(Rc|Ref|alloc::rc::Rc|&)<.*> as Deref>::deref$", h_identity)
+    add(r"^<RefMut<.*> as Deref>::deref$", h_refmut_deref)
     add(r"^<(alloc::string::)?String as Deref>::deref$", h_identity)
     add(r"^RefCell::<.*>::borrow$", h_identity)
     add(r"^<.* as Clone>::clone$", h_identity)
@@ -727,6 +737,7 @@ def install(ex):
     add(r"^<(str|&str|alloc::string::String|String) as PartialEq(<.*>)?>::eq$", h_str_eq)
     add(r"^<(str|&str|alloc::string::String|String) as PartialEq(<.*>)?>::ne$", h_str_ne)
     add(r"^alloc::str::<impl str>::to_lowercase$", h_to_lowercase)
+    add(r"^<char as ToString>::to_string$", h_char_to_string)
     add(r"^alloc::str::<impl str>::to_uppercase$", h_to_uppercase)
     add(r"^core::option::Option::<.*>::map::<.*>$", h_option_map)
     add(r"^core::option::Option::<.*>::unwrap$", h_option_unwrap)
@@ -1583,6 +1594,32 @@ def h_mapc_insert(ex, name, args, path, depth, caller):
     return ex.ret_w(p2, some(old) if old is not None else NONE, wr)
 
 
+class EntryV:
+    """BTreeMap::entry(key) on a concrete-key map: the owning map reference and the key"""
+    def __init__(self, owner, key):
+        self.owner, self.key = owner, key
+
+
+def h_mapc_entry(ex, name, args, path, depth, caller):
+    m = mapc_of(path, args[0])
+    if m is None:
+        return NotImplemented
+    return ex.ret(path, EntryV(args[0], conc_key(args[1])))
+
+
+def h_entry_or_insert(ex, name, args, path, depth, caller):
+    e = deref(args[0])
+    if not isinstance(e, EntryV):
+        raise Unsupported("Entry::or_insert on %r" % (e,))
+    m = mapc_of(path, e.owner)
+    if e.key in m.d:
+        return ex.ret(path, RefV(m.d[e.key], entry=(e.owner, e.key)))
+    d = dict(m.d)
+    d[e.key] = args[1]
+    p2, wr = writeback(path, e.owner, MapC(d), "BTreeMap")
+    return ex.ret_w(p2, RefV(args[1], entry=(e.owner, e.key)), wr)
+
+
 def h_mapc_get_mut(ex, name, args, path, depth, caller):
     m = mapc_of(path, args[0])
     if m is None:
@@ -1649,6 +1686,37 @@ def h_mapc_iter(ex, name, args, path, depth, caller):
         return NotImplemented
     keyv = lambda k: StrV(k) if isinstance(k, str) else IntV(k, 64, False)
     return ex.ret(path, IterV([TupleV([RefV(keyv(k)), RefV(m.d[k])]) for k in sorted(m.d)], 0, False, True))
+
+
+def h_borrow_mut_tracked(ex, name, args, path, depth, caller):
+    """RefCell::borrow_mut on a cell that is an object's field: the exclusive borrow is recorded in the path until the
+    RefMut is dropped (MIR has the drop explicitly), so a borrow() in between panics as it does natively"""
+    loc = find_loc(args[0])
+    if loc is not None:
+        if path.stores.get(("~borrow", loc)) == "mut":
+            yield panic(path, "RefCell already mutably borrowed", caller.name)
+            return
+        path = path.store("~borrow", loc, "borrow", "mut")
+    yield Outcome("return", path, args[0])
+
+
+def h_borrow_tracked(ex, name, args, path, depth, caller):
+    loc = find_loc(args[0])
+    if loc is not None and path.stores.get(("~borrow", loc)) == "mut":
+        yield panic(path, "RefCell already mutably borrowed", caller.name)
+        return
+    yield Outcome("return", path, args[0])
+
+
+def install_borrow_tracking(ex):
+    ex.handlers.insert(0, (re.compile(r"^RefCell::<.*>::borrow_mut$"), h_borrow_mut_tracked))
+    ex.handlers.insert(0, (re.compile(r"^RefCell::<.*>::borrow$"), h_borrow_tracked))
+
+
+def h_refmut_deref(ex, name, args, path, depth, caller):
+    """<RefMut<T> as Deref>::deref: the cell's CURRENT content (stores made through the same RefMut included)"""
+    loc = find_loc(args[0])
+    yield Outcome("return", path, RefV(cur(path, args[0]), loc=loc))
 
 
 def h_borrow_keep(ex, name, args, path, depth, caller):
@@ -1794,6 +1862,8 @@ def install_rules(ex):
     add(r"^BTreeMap::<alloc::string::String, .*>::contains_key::<.*>$", h_mapc_contains)
     add(r"^BTreeMap::<alloc::string::String, .*>::get::<.*>$", h_mapc_get)
     add(r"^BTreeMap::<alloc::string::String, .*>::insert$", h_mapc_insert)
+    add(r"^BTreeMap::<alloc::string::String, .*>::entry$", h_mapc_entry)
+    add(r"^alloc::collections::btree_map::Entry::<.*>::or_insert$", h_entry_or_insert)
     add(r"^BTreeMap::<alloc::string::String, .*>::iter$|^BTreeMap::<usize, .*>::iter$", h_mapc_iter)
     add(r"^<core::slice::Iter<'_, .*> as Iterator>::any::<.*>$", h_iter_any)
     add(r"^BTreeMap::<.*>::get_mut::<.*>$", h_mapc_get_mut)
